@@ -28,6 +28,7 @@ EXPLANATION = (
     "implementations hand exactly one TickAddEvent(event=message, step_name=step) to the adapter, and the step wrapper awaits "
     "_finalize_step (which gathers those sends) on every normal path before returning. Not decided: asyncio delivery order."
 )
+TECHNIQUE = 'static analysis: CFG guard dominance over normalised predicates (routing relation), must-pass-through (no drop), exhaustiveness of isinstance dispatch vs union inventories'
 TRUSTED = ["CPython ast", "asyncio.Queue delivers each put exactly once"]
 
 
